@@ -157,9 +157,9 @@ def parse_C(sec):
 def project(prop, op, line):
     """the part of a world output line that property `prop` is about; a difference
     outside it is another property's business"""
-    if op == "cfg" and (" tlsctx:" in line or " macopts:" in line):
+    if op == "cfg" and (" tlsctx:" in line or " macopts:" in line or " cd:" in line):
         # how the configuration was taken in is everybody's business
-        return repr((sorted(t for t in line.split(" | ")[0].split() if t.startswith("tlsctx:") or t.startswith("macopts:")), _project(prop, op, line)))
+        return repr((sorted(t for t in line.split(" | ")[0].split() if t.startswith(("tlsctx:", "macopts:", "cd:", "sd:"))), _project(prop, op, line)))
     return _project(prop, op, line)
 
 
